@@ -36,3 +36,33 @@ def install_markers():
 
 
 MECHANISMS = ("cast_sext",)
+
+
+def signature(src: str, r):
+    """Signature classifiers (structural mechanisms). Returns the mechanism name or None.
+    The predicate must hold for the source AND the observed discrepancy must be the one described."""
+    from . import cparse as CP
+
+    if r.verdict() != "diff" or not r.diff_keys:
+        return None
+    try:
+        ast = CP.parse(src)
+    except CP.ParseError:
+        return None
+    se, hy = CP.guard_targets(ast)
+
+    def covers(tg):
+        keys = set()
+        for k in CP.taint_closure(ast, tg):
+            keys |= {"jump_flag", "jump_target"} if k == "jump" else {k}
+        if any(k.startswith("call:") for k in tg):
+            return True  # an unknown callee may write anything it is handed by reference
+        return r.diff_keys <= keys
+
+    if se and covers(se):
+        return "stmt_expr_guard"
+    if hy and covers(hy):
+        return "hybrid_arm_unguarded"
+    if (se or hy) and covers(se | hy):
+        return "stmt_expr_guard" if se else "hybrid_arm_unguarded"
+    return None
